@@ -465,6 +465,15 @@ class EvHarness:
         try:
             it.exec_block(st.body, env)
         except _Break:
+            if idx == 1:
+                # the gather loop gives up before the queue is empty: only at a head that is NOT due yet - an entry due exactly at the clock
+                # reading is due (left behind, it is not waited for either - the wait would be for zero seconds - and the loop spins)
+                evs = w.log[mark:]
+                peeks = [e for e in evs if e[0] == "peek"]
+                nows = [e for e in w.log if e[0] == "now" and e[2] > 0]
+                self.rec(ctx, uid + "/gather/stops-only-at-a-head-that-is-not-due-yet (every entry due by the clock reading of this section is taken)",
+                         (it.to_int(peeks[-1][1].attrs["duetime"]) > nows[-1][1]) if (peeks and nows) else False,
+                         detail="the gather loop leaves an entry in the queue whose due time is not later than the clock reading taken under this lock")
             return
         except _Continue:
             pass
